@@ -4,6 +4,7 @@ import (
 	"encoding/json"
 	"fmt"
 	"os"
+	"path"
 	"path/filepath"
 	"sort"
 	"strings"
@@ -133,7 +134,13 @@ func (globScen) Exec(w *World, cc any, prop string) *Result {
 		out := map[string][]string{}
 		for _, p := range pats {
 			var files []string
-			for _, abs := range sf.Globs[p] {
+			// SpokFile.Globs is documented as "glob pattern -> concrete filepaths"; an implementation
+			// that normalises patterns consistently may key it by the cleaned spelling
+			expanded, ok := sf.Globs[p]
+			if !ok {
+				expanded = sf.Globs[path.Clean(p)]
+			}
+			for _, abs := range expanded {
 				st, err := os.Lstat(abs)
 				if err != nil {
 					files = append(files, "!missing:"+abs)
